@@ -12,6 +12,8 @@ def run(res, args):
     ok = tables.prepare(res, "C15", THEOREMS)
     from lib import apigen
     apigen.api_obligations(res, "C15")
+    from lib import enumgen
+    enumgen.enum_obligations(res, "C15")
     try:
         common.build_ocaml()
     except Broken as b:
